@@ -1,6 +1,7 @@
 package c17
 
 import (
+	"encoding/json"
 	"fmt"
 	"io"
 	"net"
@@ -8,6 +9,8 @@ import (
 	"net/http/httptest"
 	"strings"
 	"sync"
+	"sync/atomic"
+	"syscall"
 	"testing"
 	"time"
 
@@ -18,7 +21,8 @@ import (
 // baseYAML is a minimal valid configuration around a plugins section.
 func baseYAML(port int, backend string, chain []Elem) string {
 	var b strings.Builder
-	fmt.Fprintf(&b, "server:\n  port: %d\nbackends:\n  - name: b0\n    address: \"%s\"\nload_balancer:\n  strategy: round_robin\nplugins:\n", port, backend)
+	// info level, JSON lines: the access log of the `logging` plugin is read from the process output
+	fmt.Fprintf(&b, "logging:\n  level: info\n  format: json\nserver:\n  port: %d\nbackends:\n  - name: b0\n    address: \"%s\"\nload_balancer:\n  strategy: round_robin\nplugins:\n", port, backend)
 	for _, line := range strings.Split(strings.TrimRight(ChainYAML(chain), "\n"), "\n") {
 		b.WriteString("  " + line + "\n")
 	}
@@ -144,11 +148,11 @@ type witnessCase struct {
 func TestC17BinaryOrderWitness(t *testing.T) {
 	sub := lab.Sub("order-witness-binary", "rapid: the real helios binary with a valid chain of built-ins (length 2..5) that contains >= 2 `headers` instances (labels h<i>) and optionally custom-auth (ordinary or unusual non-empty apiKey; the request key is modelled as it arrives after the HTTP parser trimmed it) / size_limit / request-id / logging / gzip, "+
 		"one request through a live httptest backend; oracle (black box): the backend receives the request_set value of the innermost headers instance listed before it, the client receives the `set` value of the innermost "+
-		"instance that ran and the X-Verif-H-* marks of exactly the instances listed before a rejecting plugin; a rejected request (401/413) never reaches the backend; non-trivial = a headers instance on each side of a "+
+		"instance that ran and the X-Verif-H-* marks of exactly the instances listed before a rejecting plugin; a rejected request (401/413) never reaches the backend; the request is sent with one of the method/header dressings the standard client can put on the wire (CORS preflight, OPTIONS, HEAD, PUT/PATCH/DELETE/PROPFIND, Origin, ...) or plain; after a graceful stop the process output (logging.format json) holds exactly one \"plugin request log\" line with the request's unique path per `logging` instance listed before the rejecting plugin (all when nothing rejects) and none from instances listed after it (`logging` is placed at a drawn spare position next to a rejecting plugin in 3 of 4 chains that have room); non-trivial = a headers instance on each side of a "+
 		"plugin that rejects this request, or an accepted request with >= 2 headers instances")
 	sub.NontrivialFloor(0.50)
 	lab.Check(t, sub, 24, 240, func(rt *rapid.T) {
-		n := rapid.IntRange(2, 5).Draw(rt, "len")
+		n := rapid.SampledFrom([]int{2, 3, 4, 4, 5, 5, 5}).Draw(rt, "len")
 		chain := make([]Elem, n)
 		// two positions are headers by construction
 		p1 := rapid.IntRange(0, n-1).Draw(rt, "h1")
@@ -163,8 +167,32 @@ func TestC17BinaryOrderWitness(t *testing.T) {
 				chain[i] = genValidElem(rt, false)
 			}
 		}
+		between := -1
 		if lo, hi := min(p1, p2), max(p1, p2); hi-lo >= 2 && rapid.IntRange(0, 9).Draw(rt, "between") < 7 {
-			chain[rapid.IntRange(lo+1, hi-1).Draw(rt, "j")] = genRejecter(rt)
+			between = rapid.IntRange(lo+1, hi-1).Draw(rt, "j")
+			chain[between] = genRejecter(rt)
+		}
+		// `logging` at a drawn spare position, with a rejecting plugin somewhere else in the chain: its
+		// position relative to the rejecting plugin (before / after) shows in the access log
+		var spare []int
+		for i := range chain {
+			if i != p1 && i != p2 && i != between {
+				spare = append(spare, i)
+			}
+		}
+		if len(spare) > 0 && rapid.IntRange(0, 3).Draw(rt, "place_logging") < 3 {
+			k := rapid.IntRange(0, len(spare)-1).Draw(rt, "logging_at")
+			chain[spare[k]] = Elem{Kind: "logging", Style: rapid.SampledFrom([]int{0, 2}).Draw(rt, "lstyle")}
+			spare = append(spare[:k:k], spare[k+1:]...)
+			hasRejecter := false
+			for _, e := range chain {
+				if e.Kind == "custom-auth" || (e.Kind == "size_limit" && e.Max > 0) {
+					hasRejecter = true
+				}
+			}
+			if !hasRejecter && len(spare) > 0 {
+				chain[rapid.SampledFrom(spare).Draw(rt, "rejecter_at")] = genRejecter(rt)
+			}
 		}
 		c := witnessCase{Chain: chain, Req: genReqFor(rt, chain)}
 		c.Req.ReqMark = "" // hop through a real proxy: keep the client mark out of the picture
@@ -209,12 +237,27 @@ func TestC17BinaryOrderWitness(t *testing.T) {
 
 		wireReq := c.Req
 		wireReq.APIKey = c.Wire
-		status, hdr, err := doRequest(port, wireReq)
+		path := fmt.Sprintf("/witness/p%d-%d", port, witnessSeq.Add(1))
+		status, hdr, err := doRequest(port, path, wireReq)
 		seen.mu.Lock()
 		hits, breq, brid := seen.hits, seen.req, seen.rid
 		seen.mu.Unlock()
+		// graceful stop: Helios waits for the handler of the request to return, and the logging plugin
+		// writes its line before it returns - after the exit the access log is final
+		_ = h.Signal(syscall.SIGTERM)
+		logFinal, _ := h.WaitExit(startBudget)
 		log := h.Log()
 		h.Kill()
+		pluginLines := 0
+		for _, line := range strings.Split(log, "\n") {
+			var l struct {
+				Path    string `json:"path"`
+				Message string `json:"message"`
+			}
+			if json.Unmarshal([]byte(line), &l) == nil && l.Path == path && l.Message == "plugin request log" {
+				pluginLines++
+			}
+		}
 
 		nh := 0
 		nt := false
@@ -247,6 +290,28 @@ func TestC17BinaryOrderWitness(t *testing.T) {
 			}
 			nt = nh >= 2
 			labels = append(labels, "accepted")
+		}
+		if c.Req.Dress != "" && wireDress(c.Req) != "" {
+			labels = append(labels, "dressed", "dress="+c.Req.Dress)
+		}
+		if logFinal {
+			lb, la := 0, 0
+			for i, e := range c.Chain {
+				if e.Kind == "logging" && (pred.RejectAt < 0 || i < pred.RejectAt) {
+					lb++
+				}
+				if e.Kind == "logging" && pred.RejectAt >= 0 && i > pred.RejectAt {
+					la++
+				}
+			}
+			if lb > 0 {
+				labels = append(labels, "logging-saw-request")
+			}
+			if la > 0 {
+				labels = append(labels, "logging-after-rejecter")
+			}
+		} else {
+			labels = append(labels, "log-not-final")
 		}
 		sub.Case(c, nt, labels...)
 
@@ -288,6 +353,9 @@ func TestC17BinaryOrderWitness(t *testing.T) {
 				}
 			}
 		}
+		if logFinal && pluginLines != pred.LogLines {
+			d = append(d, fmt.Sprintf("the process output has %d access-log line(s) of the logging plugin (\"plugin request log\", path %s), expected %d: one per `logging` instance listed before the rejecting plugin (every instance when nothing rejects), none from an instance listed after the plugin that rejected the request", pluginLines, path, pred.LogLines))
+		}
 		if lab.HasPanicTrace(log) {
 			d = append(d, "panic trace in the helios log")
 		}
@@ -314,8 +382,26 @@ func sortStrings(s []string) {
 	}
 }
 
+var witnessSeq atomic.Uint64
+
+// wireDress: the dressing as far as it is applied over the real socket (method / header shapes the
+// standard HTTP client sends as they are; upgrade offers, Expect, TRACE, CONNECT and non-canonical
+// method tokens stay in-process matters), "" = sent undressed.
+func wireDress(rq Req) string {
+	switch rq.Dress {
+	case "cors-preflight", "cors-preflight-min", "options", "put", "patch", "delete", "origin", "origin-acrm",
+		"method-override", "propfind", "cookie", "auth-header", "range", "forwarded":
+		return rq.Dress
+	case "head":
+		if rq.Body == 0 {
+			return rq.Dress
+		}
+	}
+	return ""
+}
+
 // doRequest sends one request to the proxy port with a fresh connection.
-func doRequest(port int, rq Req) (int, http.Header, error) {
+func doRequest(port int, path string, rq Req) (int, http.Header, error) {
 	tr := &http.Transport{DisableKeepAlives: true, DisableCompression: true,
 		DialContext: (&net.Dialer{Timeout: 5 * time.Second}).DialContext}
 	defer tr.CloseIdleConnections()
@@ -326,10 +412,11 @@ func doRequest(port int, rq Req) (int, http.Header, error) {
 		method = "POST"
 		body = strings.NewReader(strings.Repeat("x", rq.Body))
 	}
-	req, err := http.NewRequest(method, fmt.Sprintf("http://127.0.0.1:%d/witness", port), body)
+	req, err := http.NewRequest(method, fmt.Sprintf("http://127.0.0.1:%d%s", port, path), body)
 	if err != nil {
 		return 0, nil, err
 	}
+	applyDress(req, wireDress(rq), rq.APIKey)
 	if rq.APIKey != "" {
 		req.Header.Set("X-API-Key", rq.APIKey)
 	}
